@@ -326,6 +326,116 @@ theorem inst_mprops_stable (T : Tables) (n : Name) (ops : List Op) (w : World) (
     simp only [run, List.foldl_cons] at h2 ⊢
     rw [h2, h1]
 
+/-- the invariants hold after every admissible program -/
+theorem invariants_reachable (T : Tables) (ops : List Op) (hrun : AdmissibleRun T {} ops) :
+    Bounded (run T {} ops) ∧ Separated (run T {} ops) := by
+  have key : ∀ (ops : List Op) (w : World), InvRun T w ops → Bounded (run T w ops) ∧ Separated (run T w ops) := by
+    intro ops w h
+    induction h with
+    | nil w hb hs => exact ⟨hb, hs⟩
+    | cons w op ops _ _ _ ih => simpa [run] using ih
+  exact key ops {} (invRun_of_admissible T ops {} empty_world_ok.1 empty_world_ok.2 hrun)
+
+/-- the description of an instance is not changed by any sequence of operations on other owners: other instances of
+its class with other configurations, their mutations, new classes -/
+theorem inst_description_stable (T : Tables) (n : Name) (ops : List Op) (w : World) (hrun : InvRun T w ops)
+    (hops : ∀ op ∈ ops, op.target ≠ .inst n) : describeH (run T w ops) (.inst n) = describeH w (.inst n) := by
+  induction hrun with
+  | nil w _ _ => rfl
+  | cons w op ops hb hs _ ih =>
+    have h1 := (isolated T w op hb hs (.inst n) (fun h => hops op List.mem_cons_self h.symm)).1
+    have h2 := ih (fun op' h => hops op' (List.mem_cons_of_mem _ h))
+    simp only [run, List.foldl_cons] at h2 ⊢
+    rw [h2, h1]
+
+/-- an admissible operation never targets a class that exists (Python would rebind the name: a new class) -/
+theorem target_ne_existing_class {w : World} {op : Op} {c : Name} (hadm : Admissible w op) (hc : w.findClass c ≠ none) :
+    op.target ≠ .cls c := by
+  cases op with
+  | define d =>
+    intro h
+    simp only [Op.target, Owner.cls.injEq] at h
+    exact hc (h ▸ hadm)
+  | inst n c' cfg => simp [Op.target]
+  | setprop i p pa k v => simp [Op.target]
+  | addEnum i p m' => simp [Op.target]
+
+/-- **once defined, a class never changes**: neither its description (accessibles with their datatypes) nor its module
+properties, whatever admissible operations follow — subclasses overriding anything on any level, sibling classes, mixin
+users, instances with any configuration, run-time mutations of instances -/
+theorem class_never_changes (T : Tables) (c : Name) (ops : List Op) (w : World) (hb : Bounded w) (hs : Separated w)
+    (hrun : AdmissibleRun T w ops) (hc : w.findClass c ≠ none) :
+    describeH (run T w ops) (.cls c) = describeH w (.cls c) ∧ describeM (run T w ops) (.cls c) = describeM w (.cls c) := by
+  induction ops generalizing w with
+  | nil => exact ⟨rfl, rfl⟩
+  | cons op ops ih =>
+    have hne : Owner.cls c ≠ op.target := fun h => target_ne_existing_class hrun.1 hc h.symm
+    have h1 := (isolated T w op hb hs (.cls c) hne).1
+    have h1m := isolated_mprops T w op hrun.1 hb hs (.cls c) hne (fun i ir h => by cases h)
+    have hp := separated_preserved T w op hrun.1 hb hs
+    have hc' : (step T w op).findClass c ≠ none := by rw [findClass_persist T w op hrun.1 c hc]; exact hc
+    obtain ⟨h2, h2m⟩ := ih (step T w op) hp.1 hp.2 hrun.2 hc'
+    simp only [run, List.foldl_cons] at h2 h2m ⊢
+    exact ⟨by rw [h2, h1], by rw [h2m, h1m]⟩
+
+/-- the two run-time mutations change the module properties of nobody, their target included -/
+theorem mutation_keeps_mprops (T : Tables) (w : World) (op : Op) (hb : Bounded w) (hs : Separated w)
+    (hmut : (∃ i p pa k v, op = .setprop i p pa k v) ∨ ∃ i p m, op = .addEnum i p m) (o : Owner) :
+    describeM (step T w op) o = describeM w o := by
+  have hrec := records_mutation T w op hmut
+  cases o with
+  | cls n =>
+    simp only [describeM, World.findClass, hrec.1]
+    cases hc : w.classes.find? (fun c => c.pure.decl.name == n) with
+    | none => rfl
+    | some cr => exact propDict_views_step T w op hb hs (c := n) hc (fun _ => none)
+  | inst m =>
+    simp only [describeM, World.findClass, World.findInst, hrec.1, hrec.2]
+    cases hi : w.insts.find? (fun i => i.name == m) with
+    | none => rfl
+    | some ir =>
+      simp only
+      cases hc : w.classes.find? (fun c => c.pure.decl.name == ir.cls) with
+      | none => rfl
+      | some cr => exact propDict_views_step T w op hb hs (c := ir.cls) hc (fun n => aget? ir.mvals n)
+
+/-- **once created, an instance keeps its module properties**, whatever admissible operations follow (its own run-time
+mutations included) -/
+theorem inst_never_changes_mprops (T : Tables) (n : Name) (ops : List Op) (w : World) (hb : Bounded w) (hs : Separated w)
+    (hrun : AdmissibleRun T w ops) (ir : InstRec) (hi : w.findInst n = some ir) (hex : w.findClass ir.cls ≠ none) :
+    describeM (run T w ops) (.inst n) = describeM w (.inst n) := by
+  induction ops generalizing w with
+  | nil => rfl
+  | cons op ops ih =>
+    have hp := separated_preserved T w op hrun.1 hb hs
+    have hstep : describeM (step T w op) (.inst n) = describeM w (.inst n) ∧ (step T w op).findInst n = some ir := by
+      cases op with
+      | define d =>
+        have hne : Owner.inst n ≠ (Op.define d).target := by simp [Op.target]
+        exact ⟨isolated_mprops T w _ hrun.1 hb hs (.inst n) hne (fun i ir' h hf => by
+          cases h; rw [hi] at hf; cases hf; exact hex), by rw [findInst_step_ne T w _ n hne]; exact hi⟩
+      | inst n' c cfg =>
+        have hnn : n ≠ n' := fun e => by
+          have h0 : w.findInst n' = none := hrun.1
+          rw [← e, hi] at h0; cases h0
+        have hne : Owner.inst n ≠ (Op.inst n' c cfg).target := by simp [Op.target, hnn]
+        exact ⟨isolated_mprops T w _ hrun.1 hb hs (.inst n) hne (fun i ir' h hf => by
+          cases h; rw [hi] at hf; cases hf; exact hex), by rw [findInst_step_ne T w _ n hne]; exact hi⟩
+      | setprop i p pa k v =>
+        have hm : (∃ i' p' pa' k' v', Op.setprop i p pa k v = .setprop i' p' pa' k' v') ∨
+            ∃ i' p' m', Op.setprop i p pa k v = .addEnum i' p' m' := Or.inl ⟨i, p, pa, k, v, rfl⟩
+        exact ⟨mutation_keeps_mprops T w _ hb hs hm _, by
+          simp only [World.findInst, (records_mutation T w _ hm).2]; exact hi⟩
+      | addEnum i p m =>
+        have hm : (∃ i' p' pa' k' v', Op.addEnum i p m = .setprop i' p' pa' k' v') ∨
+            ∃ i' p' m', Op.addEnum i p m = .addEnum i' p' m' := Or.inr ⟨i, p, m, rfl⟩
+        exact ⟨mutation_keeps_mprops T w _ hb hs hm _, by
+          simp only [World.findInst, (records_mutation T w _ hm).2]; exact hi⟩
+    have hex' : (step T w op).findClass ir.cls ≠ none := by rw [findClass_persist T w op hrun.1 ir.cls hex]; exact hex
+    have h2 := ih (step T w op) hp.1 hp.2 hrun.2 hstep.2 hex'
+    simp only [run, List.foldl_cons] at h2 ⊢
+    rw [h2, hstep.1]
+
 /-- what an instance of a class with module properties `props` (value level) configured with `cfg` shows -/
 def instMSpec (props : List (Name × PSlot)) (cfg : List (Name × PropMap)) : List (Name × MView) :=
   (props.map (fun ks => (ks.1, (⟨some ks.2.val, none⟩ : MView)))).map (fun nv =>
@@ -333,12 +443,12 @@ def instMSpec (props : List (Name × PSlot)) (cfg : List (Name × PropMap)) : Li
 
 /-- **a module's (module-level) description is a function of its own class chain and its own configuration only**:
 in any admissible program that creates the instance `n` of class `c` with configuration `cfg` at some point, and whatever
-it does before (to other owners: `pre`) and afterwards (`post`: operations on other owners), the instance shows
+it does before (`pre`) and afterwards (`post`: any admissible operations, its own mutations included), the instance shows
 `instMSpec` of the value `HasProperties.__init_subclass__` computed for `c` — which is `pureOf env` of the class bodies
 (`order_independent_partial`) — and of `cfg`. -/
 theorem inst_mprops_function (T : Tables) (pre post : List Op) (n c : Name) (cfg : List (Name × PropMap))
     (hrun : AdmissibleRun T {} (pre ++ Op.inst n c cfg :: post)) (hwf : ∀ op ∈ pre, WellFormed op)
-    (cr : ClassRec) (hc : (run T {} pre).findClass c = some cr) (hpost : ∀ op ∈ post, op.target ≠ .inst n) :
+    (cr : ClassRec) (hc : (run T {} pre).findClass c = some cr) :
     describeM (run T {} (pre ++ Op.inst n c cfg :: post)) (.inst n) = instMSpec cr.pure.props cfg := by
   obtain ⟨hpre, hrest⟩ := admissibleRun_append T pre _ {} hrun
   have hinv : Bounded (run T {} pre) ∧ Separated (run T {} pre) := by
@@ -356,12 +466,8 @@ theorem inst_mprops_function (T : Tables) (pre post : List Op) (n c : Name) (cfg
     unfold World.findInst instantiate
     exact find?_append_new _ _ _ hnone (by simp)
   rw [run_append, run_cons]
-  have hstable := inst_mprops_stable T n post (step T (run T {} pre) (.inst n c cfg)) hp.1 hp.2 hrest.2 hpost
+  have hstable := inst_never_changes_mprops T n post (step T (run T {} pre) (.inst n c cfg)) hp.1 hp.2 hrest.2 _ hfind
     (by
-      intro ir hf
-      simp only [step] at hf ⊢
-      rw [hfind] at hf
-      cases hf
       show (run T {} pre).findClass c ≠ none
       rw [hc]; exact fun h => by cases h)
   rw [hstable]
@@ -442,9 +548,22 @@ def exOps2 : List Op :=
 
 /-- the program is admissible (hypothesis of `isolated_mprops`, `class_mprops_stable`, `later_instances_mprops`;
 `Bounded`/`Separated` hold in the empty world: `empty_world_ok`) … -/
-example : AdmissibleRun exT {} exOps2 := by
+theorem exOps2_admissible : AdmissibleRun exT {} exOps2 := by
   refine ⟨?_, ?_, ?_, ?_, ?_, trivial, ?_, trivial⟩ <;>
     exact Option.isNone_iff_eq_none.1 (by decide +kernel)
+
+/-- `class_never_changes` applied: `P`, defined by the first two operations, is after the whole program (subclass `Q`
+overriding `group` on the second level, three instances, a member mutation) what it was when it was defined -/
+example : describeH (run exT {} exOps2) (.cls "P") = describeH (run exT {} (exOps2.take 2)) (.cls "P") ∧
+    describeM (run exT {} exOps2) (.cls "P") = describeM (run exT {} (exOps2.take 2)) (.cls "P") := by
+  have h := admissibleRun_append exT (exOps2.take 2) (exOps2.drop 2) {} exOps2_admissible
+  have hi := invariants_reachable exT (exOps2.take 2) h.1
+  have hc : (run exT {} (exOps2.take 2)).findClass "P" ≠ none := by
+    intro e
+    have : ((run exT {} (exOps2.take 2)).findClass "P").isSome = true := by decide +kernel
+    rw [e] at this; cases this
+  have := class_never_changes exT "P" (exOps2.drop 2) _ hi.1 hi.2 h.2 hc
+  rwa [← run_append] at this
 
 /-- … every instance has a class (hypothesis `hcls` of `isolated_mprops`) … -/
 example : ∀ ir ∈ (run exT {} exOps2).insts, ((run exT {} exOps2).findClass ir.cls).isSome = true := by decide +kernel
@@ -499,16 +618,11 @@ example : ConsistentRun exT exEnv2 {} exOps2 := by
       cases this
 
 /-- `inst_mprops_function` on this program: `exOps2 = pre ++ .inst "j2" "P" cfg :: post` with `pre` defining `P`, `post`
-operating on `j1` and `j3` only; `j2` shows `instMSpec` of the properties of `P` (group = cryo, held by the Property object
+the rest; `j2` shows `instMSpec` of the properties of `P` (group = cryo, held by the Property object
 in the `__dict__` of `P`) and of its configuration (group = x) -/
 example : exOps2 = exOps2.take 4 ++ Op.inst "j2" "P" [("group", [("value", "\"x\"")])] :: exOps2.drop 5 := rfl
 
-example : ((run exT {} (exOps2.take 4)).findClass "P").isSome = true ∧
-    (∀ op ∈ exOps2.drop 5, op.target ≠ .inst "j2") := by
-  refine ⟨by decide +kernel, ?_⟩
-  intro op hop
-  simp only [exOps2, List.drop_succ_cons, List.drop_zero, List.mem_cons, List.not_mem_nil, or_false] at hop
-  rcases hop with rfl | rfl <;> simp [Op.target]
+example : ((run exT {} (exOps2.take 4)).findClass "P").isSome = true := by decide +kernel
 
 example : describeM (run exT {} exOps2) (.inst "j2") =
     instMSpec [("group", ⟨"P", { pGroup with value := some "\"cryo\"" }⟩)] [("group", [("value", "\"x\"")])] := by
